@@ -122,12 +122,18 @@ EXTRA3 = {
     "C18": " Session 3: entry flags resolved through parameter defaults, **CONST tables and forwarding wrappers.",
     "C19": " Session 3: the sum normalising a partner's weight runs over the pool the generator draws from (violated today: known finding KF-2, get_reaction_prob normalises over the partner's own token; probabilities sum to 4/3 with two end groups of one direction).",
 }
-for _src in (EXTRA, EXTRA3):
+EXTRA4 = {
+    "C06": " Session 4: a field the constructor computes from the terminals must be re-computed where the mirror swaps them (M-DERIVED under R-MEMO).",
+    "C08": " Session 4: the growth machinery is located in generate, its closures and the private methods they call; a pick whose closure was renamed takes the place of an unclaimed decision point with its (pool, filter).",
+    "C10": " Session 4: R-SHARED-FIELD is interprocedural (a shared array handed to a function that changes that parameter in place, through NumPy's alias-returning calls); draws from the generator SciPy keeps on a law object (`_random_state`) and sampling hooks that ignore their random_state are uses of hidden global state (R-GLOBAL-RNG-USE); constructor-derived fields vs. re-assigned sources (M-DERIVED).",
+    "C15": " Session 4: the parameter reader of every distribution family gets exactly the text after the keyword (R-DIST-NAME: `gaussian(…)` is an unknown name, not `gauss`).",
+}
+for _src in (EXTRA, EXTRA3, EXTRA4):
     for _p, _t in _src.items():
         if _p in CHECKS:
             CHECKS[_p]["text"] += _t
 for _p in CHECKS:
-    CHECKS[_p]["note"] += "; A-NORM (sa/normalise.py): rules see every module after inlining of trivial helpers, propagation of condition temporaries, inlining of short straight-line private helpers and canonical spelling of updates / text building / all()-any() / append loops"
+    CHECKS[_p]["note"] += "; A-NORM (sa/normalise.py): rules see every module after inlining of trivial helpers, propagation of condition temporaries, inlining of short straight-line private helpers and canonical spelling of updates / text building / all()-any() (also as `if` tests) / append loops / neighbour-pair loops / loops over literal tables / lazily cached loop constants; annotations are dropped"
 
 NOT_APPLICABLE = {}
 for _i in range(1, 21):
